@@ -140,7 +140,7 @@ func checkCutsLoop(dump []byte, f *bc.File, all bool, extra []int, cur, curMode 
 			case 0:
 				p, err, pan = loadProg(bytes.NewReader(dump[:cut]), "x")
 			case 1:
-				if !all && cut > 3000 {
+				if cut > 3000 && len(dump) > 8192 {
 					continue // one byte per read is quadratic-ish for long prefixes; sampled below 3000
 				}
 				p, err, pan = loadProg(iotest.OneByteReader(bytes.NewReader(dump[:cut])), "x")
@@ -167,7 +167,7 @@ type caseC13 struct {
 	Dump []byte `json:"dump,omitempty"`
 }
 
-func checkC13(c caseC13, extra []int) (viol string, nontrivial bool, feats []string, cuts int) {
+func checkC13(c caseC13, extra []int, forceAll bool) (viol string, nontrivial bool, feats []string, cuts int) {
 	pr := parseWhole(c.Src, c.Name)
 	if pr.pan != nil {
 		return fmt.Sprintf("Parse panicked: %v", pr.pan), false, nil, 0
@@ -179,7 +179,11 @@ func checkC13(c caseC13, extra []int) (viol string, nontrivial bool, feats []str
 	if err != nil {
 		return fmt.Sprintf("the harness's decoder cannot read the dump: %v", err), false, nil, 0
 	}
-	all := len(pr.dump) <= 4096
+	lim := 4096
+	if thorough() {
+		lim = 8192
+	}
+	all := len(pr.dump) <= lim || forceAll
 	tried, classes, viol := checkCuts(pr.dump, f, all, extra)
 	for k, n := range classes {
 		harness.Get("C13").Count(k, n)
@@ -202,7 +206,7 @@ func TestC13(t *testing.T) {
 		for i := 0; i < 64; i++ {
 			extra = append(extra, gen.Int(t, 0, 1<<17, "randcut"))
 		}
-		viol, nt, feats, cuts := checkC13(c, extra)
+		viol, nt, feats, cuts := checkC13(c, extra, false)
 		rec.Case(nt, harness.Hash(c.Src, c.Name), feats...)
 		rec.Count("cuts-tried", cuts)
 		if nt {
@@ -288,7 +292,7 @@ func TestReplayC13(t *testing.T) {
 		return
 	}
 	c.source()
-	if viol, _, _, _ := checkC13(c, nil); viol != "" {
+	if viol, _, _, _ := checkC13(c, nil, true); viol != "" {
 		harness.Get("C13").Fail(t, c, "%s", viol)
 	}
 }
